@@ -638,7 +638,7 @@ Definition replay_stream (rp : replay) : stream :=
 Definition replay_run (rp : replay) (x : export) : outcome :=
   fst (optimise current_code replay_platform (replay_config rp) 0
                 {| r_stream := replay_stream rp; r_ids := Mocked |} (replay_oracles rp x)
-                (S (S (length (x_gens x))))).
+                (S (S (length (x_gens x))) + match rp_num_gen rp with Some n => n | None => 0 end)).
 
 (* the observed identifiers are windows of the seeded stream, created in the recorded order and
    pairwise disjoint (16 outputs each) - the observable side of uid_source_single_stream *)
